@@ -472,6 +472,16 @@ func schedOp(w *schedWorld, name string) func() string {
 			return c, nil
 		})
 		return func() string { return errStr(err) }
+	case "ExecutionAllowedHookInclude":
+		// the other way to write such a hook: a fresh collection, Include, Add
+		var addErr error
+		err := w.inv.ExecutionAllowedWithArgsHook(w.store, func(ro args.ReadOnly) (*args.Args, error) {
+			c := args.New()
+			c.Include(ro)
+			addErr = c.Add("zz-added-by-hook", 1)
+			return c, addErr
+		})
+		return func() string { return errStr(err) + "/" + errStr(addErr) }
 	case "MetaIter":
 		var ks []string
 		var vs []datamodel.Node
@@ -1097,7 +1107,7 @@ func genSched(r *Rand, g GenCfg) Plan {
 		targets = append(targets, fmt.Sprintf("dlg%d", i))
 	}
 	invOps := []string{"ExecutionAllowed", "ExecutionAllowed", "ExecutionAllowed", "ExecutionAllowed", "ExecutionAllowed", "ExecutionAllowedHook", "ExecutionAllowedEmptyStore", "ExecutionAllowedPartialStore", "ToSealed", "ToSealedWriter", "ToDagCbor", "ToDagJson", "Encode", "Accessors", "Derived", "IsValid",
-		"ArgsIter", "ArgsString", "ArgsToIPLD", "ArgsGetNode", "ArgsEquals", "ArgsClone", "ArgsCloneMutate", "MetaCloneMutate", "ExecutionAllowedHookAdd", "MetaIter", "MetaString", "MetaGet", "MetaGetEncrypted", "MetaEquals", "MetaClone",
+		"ArgsIter", "ArgsString", "ArgsToIPLD", "ArgsGetNode", "ArgsEquals", "ArgsClone", "ArgsCloneMutate", "MetaCloneMutate", "ExecutionAllowedHookAdd", "ExecutionAllowedHookInclude", "ExecutionAllowedHookInclude", "MetaIter", "MetaString", "MetaGet", "MetaGetEncrypted", "MetaEquals", "MetaClone",
 		"StoreGet", "StoreIter", "ContainerWrite"}
 	dlgOps := []string{"ToSealed", "ToSealedWriter", "ToDagJson", "Encode", "Accessors", "Derived", "Derived", "IsValid", "MetaIter", "MetaString", "MetaGet", "MetaEquals", "MetaClone", "MetaCloneMutate", "PolicyString", "PolicyMatch", "PolicyMatchAlt", "PolicyMatchAlt", "StoreGet"}
 	decodeOps := []string{"DecodeSealed", "DecodeForged", "DecodeTyped", "DecodeForgedTyped", "DecodeDagCbor", "DecodeForgedDagCbor", "DecodeContainer"}
